@@ -28,8 +28,43 @@ def lit(v):
 
 
 class RealTr:
-    def __init__(self, methods):
+    def __init__(self, methods, classes=(), opaque=None):
         self.methods = methods  # python method name -> (lean name, extra args string)
+        self.classes = classes  # ClassDef nodes searched (in order) for private helpers to inline
+        self.opaque = opaque or {}  # python method name -> Lean term standing for its value (a parameter)
+        self.depth = 0
+
+    def helper(self, name):
+        """the private method / static helper `name` of the class chain (to be inlined), or None"""
+        if not name.startswith('_') or name.startswith('__'):
+            return None
+        for c in self.classes:
+            found = [n for n in c.body if isinstance(n, ast.FunctionDef) and n.name == name]
+            if len(found) > 1:
+                raise TranslateError('helper %s defined twice' % name)
+            if found:
+                for d in found[0].decorator_list:
+                    if ast.unparse(d) not in ('staticmethod',):
+                        raise TranslateError('helper %s is wrapped by decorator @%s' % (name, ast.unparse(d)))
+                return found[0]
+        return None
+
+    def inline(self, fn, call, env):
+        """value of `helper(args)`: the helper's body with its parameters bound to the translated arguments"""
+        if self.depth > 4:
+            raise TranslateError('helper nesting too deep / recursive: ' + fn.name)
+        params = [a.arg for a in fn.args.args]
+        if params and params[0] == 'self':
+            params = params[1:]
+        if (len(params) != len(call.args) or call.keywords or fn.args.vararg or fn.args.kwarg or fn.args.defaults
+                or fn.args.kwonlyargs):
+            raise TranslateError('helper %s: unsupported signature / call form' % fn.name)
+        inner = {p_: self.expr(a, env) for p_, a in zip(params, call.args)}
+        self.depth += 1
+        try:
+            return '(%s)' % self.body(fn, inner)
+        finally:
+            self.depth -= 1
 
     def expr(self, e, env):
         if isinstance(e, ast.Name):
@@ -65,6 +100,8 @@ class RealTr:
                 name = fn.value.id + '.' + fn.attr
             elif isinstance(fn, ast.Name):
                 name = fn.id
+            if name is not None and name.startswith('self.') and name[5:] in self.opaque:
+                return self.opaque[name[5:]]
             args = [self.expr(a, env) for a in e.args]
             if name in ('np.sqrt', 'math.sqrt') and len(args) == 1:
                 return '(Trig.sqrt %s)' % args[0]
@@ -78,9 +115,17 @@ class RealTr:
                 return '(Fn.pow10 %s)' % args[1]
             if name == 'level2bits' and ast.unparse(e.args[0]) == 'self._M':
                 return '(k : α)'
+            if name is not None and name.startswith('self.') and name[5:] in self.opaque:
+                return self.opaque[name[5:]]
             if name is not None and name.startswith('self.') and name[5:] in self.methods:
                 lean, extra = self.methods[name[5:]]
                 return '(%s %s %s)' % (lean, extra, ' '.join(args))
+            if name is not None and '.' in name:
+                owner, meth = name.split('.', 1)
+                if owner == 'self' or owner in [c.name for c in self.classes]:
+                    h = self.helper(meth)
+                    if h is not None:
+                        return self.inline(h, e, env)
             raise TranslateError('unsupported call ' + ast.unparse(e)[:60])
         raise TranslateError('unsupported expression ' + ast.dump(e)[:80])
 
@@ -103,53 +148,90 @@ class RealTr:
 CLS = '{α : Type} [Add α] [Sub α] [Mul α] [Div α] [NatCast α] [Trig α] [Fn α]'
 
 
+def find_class(tree, name):
+    found = [n for n in tree.body if isinstance(n, ast.ClassDef) and n.name == name]
+    if len(found) != 1:
+        raise TranslateError('class %s: %d definitions' % (name, len(found)))
+    return found[0]
+
+
+def branches_on_none(fn, var):
+    """the two straight-line statement lists of a body of the shape
+    `[stmts...] if <var> is None: A else: B [stmts...]` (at most one such `if`); (A-path, B-path)"""
+    stmts = strip_doc(fn.body)
+    ifs = [k for k, st in enumerate(stmts) if isinstance(st, ast.If)]
+    if len(ifs) != 1:
+        raise TranslateError('%s: expected exactly one `if %s is None`' % (fn.name, var))
+    k = ifs[0]
+    st = stmts[k]
+    test = ast.unparse(st.test)
+    if test == '%s is None' % var:
+        a, b = st.body, st.orelse
+    elif test == '%s is not None' % var:
+        a, b = st.orelse, st.body
+    else:
+        raise TranslateError('%s: unexpected test `%s`' % (fn.name, test))
+    if not a or not b:
+        raise TranslateError('%s: a branch is missing' % fn.name)
+    mk = lambda br: ast.FunctionDef(name=fn.name, args=fn.args, body=stmts[:k] + br + stmts[k + 1:], decorator_list=[],
+                                    lineno=0)
+    return mk(a), mk(b)
+
+
 def gen(repo):
     fund = parse_file(os.path.join(repo, 'pyphysim/modulators/fundamental.py'))
     conv = parse_file(os.path.join(repo, 'pyphysim/util/conversion.py'))
+    cM, cP, cB, cQ = (find_class(fund, n) for n in ('Modulator', 'PSK', 'BPSK', 'QAM'))
     out = []
     tr = RealTr({})
     f = find_fn(conv, 'dB2Linear')
     out.append('def dB2Linear %s (valueIndB : α) : α :=\n  %s\n' % (CLS, tr.body(f, {'valueIndB': 'valueIndB'})))
     # PSK
+    trp = RealTr({}, classes=(cP, cM))
     f = find_fn(fund, 'calcTheoreticalSER', 'PSK')
-    out.append('def pskSER %s (Q : α → α) (M : Nat) (SNR : α) : α :=\n  %s\n' % (CLS, tr.body(f, {'SNR': 'SNR'})))
-    tr2 = RealTr({'calcTheoreticalSER': ('pskSER', 'Q M')})
+    out.append('def pskSER %s (Q : α → α) (M : Nat) (SNR : α) : α :=\n  %s\n' % (CLS, trp.body(f, {'SNR': 'SNR'})))
+    tr2 = RealTr({'calcTheoreticalSER': ('pskSER', 'Q M')}, classes=(cP, cM))
     f = find_fn(fund, 'calcTheoreticalBER', 'PSK')
     out.append('def pskBER %s (Q : α → α) (M k : Nat) (SNR : α) : α :=\n  %s\n' % (CLS, tr2.body(f, {'SNR': 'SNR'})))
     # BPSK
+    trb = RealTr({}, classes=(cB, cM))
     f = find_fn(fund, 'calcTheoreticalSER', 'BPSK')
-    out.append('def bpskSER %s (Q : α → α) (SNR : α) : α :=\n  %s\n' % (CLS, tr.body(f, {'SNR': 'SNR'})))
-    tr3 = RealTr({'calcTheoreticalSER': ('bpskSER', 'Q')})
+    out.append('def bpskSER %s (Q : α → α) (SNR : α) : α :=\n  %s\n' % (CLS, trb.body(f, {'SNR': 'SNR'})))
+    tr3 = RealTr({'calcTheoreticalSER': ('bpskSER', 'Q')}, classes=(cB, cM))
     f = find_fn(fund, 'calcTheoreticalBER', 'BPSK')
     out.append('def bpskBER %s (Q : α → α) (SNR : α) : α :=\n  %s\n' % (CLS, tr3.body(f, {'SNR': 'SNR'})))
     # QAM
+    trq = RealTr({}, classes=(cQ, cM))
     f = find_fn(fund, '_calcTheoreticalSingleCarrierErrorRate', 'QAM')
-    out.append('def qamPsc %s (Q : α → α) (M : Nat) (SNR : α) : α :=\n  %s\n' % (CLS, tr.body(f, {'SNR': 'SNR'})))
-    tr4 = RealTr({'_calcTheoreticalSingleCarrierErrorRate': ('qamPsc', 'Q M')})
+    out.append('def qamPsc %s (Q : α → α) (M : Nat) (SNR : α) : α :=\n  %s\n' % (CLS, trq.body(f, {'SNR': 'SNR'})))
+    tr4 = RealTr({'_calcTheoreticalSingleCarrierErrorRate': ('qamPsc', 'Q M')}, classes=(cQ, cM))
     f = find_fn(fund, 'calcTheoreticalSER', 'QAM')
     out.append('def qamSER %s (Q : α → α) (M : Nat) (SNR : α) : α :=\n  %s\n' % (CLS, tr4.body(f, {'SNR': 'SNR'})))
     f = find_fn(fund, 'calcTheoreticalBER', 'QAM')
     out.append('def qamBER %s (Q : α → α) (M k : Nat) (SNR : α) : α :=\n  %s\n' % (CLS, tr4.body(f, {'SNR': 'SNR'})))
-    # PER: BER is supplied (the method calls the subclass' calcTheoreticalBER)
+    # PER: the BER is supplied (the method calls the subclass' calcTheoreticalBER exactly with its own SNR)
     f = find_fn(fund, 'calcTheoreticalPER', 'Modulator')
-    stmts = strip_doc(f.body)
-    if not (len(stmts) == 3 and ast.unparse(stmts[0]) == 'BER = self.calcTheoreticalBER(SNR)'):
-        raise TranslateError('calcTheoreticalPER: unexpected shape')
-    f2 = ast.FunctionDef(name='per', args=f.args, body=stmts[1:], decorator_list=[], lineno=0)
+    calls = [n for n in ast.walk(f) if isinstance(n, ast.Call) and ast.unparse(n.func) == 'self.calcTheoreticalBER']
+    if len(calls) != 1 or ast.unparse(calls[0]) != 'self.calcTheoreticalBER(SNR)':
+        raise TranslateError('calcTheoreticalPER: the BER must be self.calcTheoreticalBER(SNR), once')
+    trper = RealTr({}, classes=(cM,), opaque={'calcTheoreticalBER': 'BER'})
     out.append('def per %s (BER : α) (packet_length : Nat) : α :=\n  %s\n'
-               % (CLS, tr.body(f2, {'BER': 'BER', 'packet_length': 'packet_length'})))
-    # spectral efficiency: both branches
+               % (CLS, trper.body(f, {'packet_length': 'packet_length'})))
+    # spectral efficiency: both branches of `packet_length is None` must be the same function of the
+    # error rate X, which is the BER without and the PER with a packet length
     f = find_fn(fund, 'calcTheoreticalSpectralEfficiency', 'Modulator')
-    stmts = strip_doc(f.body)
-    if not (len(stmts) == 2 and isinstance(stmts[0], ast.If) and ast.unparse(stmts[0].test) == 'packet_length is None'):
-        raise TranslateError('calcTheoreticalSpectralEfficiency: unexpected shape')
-    a, b = stmts[0].body[0], stmts[0].orelse[0]
-    ea = ast.unparse(a.value).replace('self.calcTheoreticalBER(SNR)', 'X')
-    eb = ast.unparse(b.value).replace('self.calcTheoreticalPER(SNR, packet_length)', 'X')
+    fa, fb = branches_on_none(f, 'packet_length')
+    for fx, want, other in ((fa, 'self.calcTheoreticalBER(SNR)', 'self.calcTheoreticalPER'),
+                            (fb, 'self.calcTheoreticalPER(SNR, packet_length)', 'self.calcTheoreticalBER')):
+        cs = [ast.unparse(n) for n in ast.walk(fx) if isinstance(n, ast.Call)
+              and ast.unparse(n.func) in ('self.calcTheoreticalBER', 'self.calcTheoreticalPER')]
+        if cs != [want]:
+            raise TranslateError('spectral efficiency: branch must use %s exactly once, found %s' % (want, cs))
+    trse = RealTr({}, classes=(cM,), opaque={'calcTheoreticalBER': 'X', 'calcTheoreticalPER': 'X'})
+    ea, eb = trse.body(fa, {}), trse.body(fb, {})
     if ea != eb:
         raise TranslateError('spectral efficiency branches differ in shape: %s / %s' % (ea, eb))
-    e = ast.parse(ea, mode='eval').body
-    out.append('def spectralEff %s (K X : α) : α :=\n  %s\n' % (CLS, tr.expr(e, {'X': 'X'})))
+    out.append('def spectralEff %s (K X : α) : α :=\n  %s\n' % (CLS, ea))
     return (HEADER % 'pyphysim/modulators/fundamental.py (error-rate formulas), pyphysim/util/conversion.py (dB2Linear)'
             + 'import PyPhysim.Model.C16\nset_option linter.unusedVariables false\n'
             + 'namespace PyPhysim.Generated.C16\nopen PyPhysim.C01 (Trig)\nopen PyPhysim.C16 (Fn powNat)\n\n'
